@@ -106,6 +106,12 @@ func (ex *Ex) callFunction(fr *Frame, st *State, ins ssa.Instruction, callee *ss
 		ex.inlineCall(fr, st, ins, callee, bindings, args, k)
 		return
 	}
+	// Error() of a concrete external type: the same text the interface call denotes
+	if callee.Name() == "Error" && callee.Signature.Recv() != nil && callee.Signature.Params().Len() == 0 && callee.Signature.Results().Len() == 1 && isString(callee.Signature.Results().At(0).Type()) && len(args) == 1 {
+		rt := callee.Signature.Recv().Type()
+		k(st, Val{T: App("f$msg", SString, ex.makeIface(fr, st, args[0], rt))})
+		return
+	}
 	// unmodelled: typed havoc of the result
 	name := w.funcName(callee)
 	ex.note("unmodelled call (result havoced, assumed not to panic nor write tracked memory): " + name)
@@ -198,6 +204,9 @@ func (ex *Ex) callByContract(fr *Frame, st *State, ins ssa.Instruction, callee *
 		ord = fr.ordinalOf("call", ins)
 	}
 	for _, rq := range ctr.Requires {
+		if !ex.activeProps(rq.Props) {
+			continue
+		}
 		t, err := ex.trBool(envPre, rq.E)
 		if err != nil {
 			unsupp("contract of %s: %v", cname, err)
@@ -255,6 +264,9 @@ func (ex *Ex) callByContract(fr *Frame, st *State, ins ssa.Instruction, callee *
 		st.Assume(Eq(svs[0].T, d.T))
 	}
 	for _, en := range ctr.Ensures {
+		if !ex.activeProps(en.Props) {
+			continue // a postcondition scoped to other properties (proved under requires of that scope)
+		}
 		t, err := ex.trBool(envPost, en.E)
 		if err != nil {
 			unsupp("contract of %s: %v", cname, err)
@@ -438,6 +450,9 @@ func (ex *Ex) invokeByContract(fr *Frame, st *State, ins ssa.Instruction, ctr *C
 	}
 	ord := fr.ordinalOf("invoke", ins)
 	for _, rq := range ctr.Requires {
+		if !ex.activeProps(rq.Props) {
+			continue
+		}
 		t, err := ex.trBool(env, rq.E)
 		if err != nil {
 			unsupp("extern contract %s: %v", name, err)
@@ -449,6 +464,9 @@ func (ex *Ex) invokeByContract(fr *Frame, st *State, ins ssa.Instruction, ctr *C
 	env.results = svs
 	env.resNames = resultNames(sig)
 	for _, en := range ctr.Ensures {
+		if !ex.activeProps(en.Props) {
+			continue
+		}
 		t, err := ex.trBool(env, en.E)
 		if err != nil {
 			unsupp("extern contract %s: %v", name, err)
@@ -627,6 +645,9 @@ func (ex *Ex) appendBuiltin(fr *Frame, st *State, ins ssa.Instruction, cc *ssa.C
 	j := Var("j!a", SInt)
 	st.Assume(Forall([]*T{j}, Implies(And(Ge(j, IntLit(0)), Lt(j, la)), Eq(Select(na, j), Select(arr, j)))))
 	st.Assume(Forall([]*T{j}, Implies(And(Ge(j, IntLit(0)), Lt(j, lb)), Eq(Select(na, Add(la, j)), Select(barr, j)))))
+	// the same fact indexed from the result's side (matches on select(na, k))
+	k := Var("k!a", SInt)
+	st.Assume(Forall([]*T{k}, Implies(And(Ge(k, la), Lt(k, Add(la, lb))), Eq(Select(na, k), Select(barr, Sub(k, la)))), []*T{Select(na, k)}))
 	return Val{T: w.MkSlice(es, na, Add(la, lb), And(w.SliceIsNil(a), Eq(lb, IntLit(0))))}
 }
 
@@ -635,20 +656,53 @@ func (ex *Ex) appendBuiltin(fr *Frame, st *State, ins ssa.Instruction, cc *ssa.C
 func (ex *Ex) loopInvariants(fr *Frame, st *State, li *loopInfo) ([]*T, []*Clause) {
 	var ts []*T
 	var cs []*Clause
-	if li.Spec == nil {
+	if li.Spec == nil && li.Up == nil {
 		return nil, nil
 	}
 	saved := fr.CurLoop
 	fr.CurLoop = li
 	defer func() { fr.CurLoop = saved }()
-	for _, inv := range li.Spec.Invs {
-		env := ex.newEnv(fr, st)
-		t, err := ex.trBool(env, inv.E)
-		if err != nil {
-			unsupp("loop %d invariant of %s: %v", li.Ord, fr.Name, err)
+	if li.Spec != nil {
+		for _, inv := range li.Spec.Invs {
+			if len(inv.Props) > 0 && ex.Props != nil {
+				want := false
+				for _, p := range inv.Props {
+					if ex.Props[p] {
+						want = true
+					}
+				}
+				if !want {
+					continue // an invariant scoped to other properties
+				}
+			}
+			env := ex.newEnv(fr, st)
+			t, err := ex.trBool(env, inv.E)
+			if err != nil {
+				unsupp("loop %d invariant of %s: %v", li.Ord, fr.Name, err)
+			}
+			ts = append(ts, t)
+			cs = append(cs, inv)
 		}
-		ts = append(ts, t)
-		cs = append(cs, inv)
+	}
+	if li.Up != nil {
+		// invariants the inlining caller states about its own variables across the callee's loop
+		for _, inv := range li.Up.Invs {
+			if !ex.activeProps(inv.Props) {
+				continue
+			}
+			env := ex.newEnv(li.UpFrame, st)
+			t, err := ex.trBool(env, inv.E)
+			if err != nil {
+				unsupp("loop %s.%d invariant of %s: %v", fr.Fn.Name(), li.Ord, li.UpFrame.Name, err)
+			}
+			c := *inv
+			c.Ord = 100 + inv.Ord
+			if len(c.Props) == 0 && li.UpFrame.Ctr != nil {
+				c.Props = li.UpFrame.Ctr.Props
+			}
+			ts = append(ts, t)
+			cs = append(cs, &c)
+		}
 	}
 	return ts, cs
 }
@@ -832,14 +886,33 @@ func (ex *Ex) havocLoop(fr *Frame, st *State, li *loopInfo) {
 	}
 	if anyCall {
 		// closures invoked in the loop may write captured cells
-		for _, bb := range fr.Fn.Blocks {
-			for _, ins := range bb.Instrs {
-				if mc, ok := ins.(*ssa.MakeClosure); ok {
-					for _, bnd := range mc.Bindings {
-						if v, ok := st.regs[bnd]; ok && v.Ptr != nil && v.Ptr.Cell > 0 {
-							cells[v.Ptr.Cell] = true
+		// (closures made in this frame or in any inlining frame up the chain: they can arrive
+		// here as function-typed arguments)
+		for a := fr; a != nil; a = a.Parent {
+			if a.Fn == nil {
+				continue
+			}
+			for _, bb := range a.Fn.Blocks {
+				for _, ins := range bb.Instrs {
+					if mc, ok := ins.(*ssa.MakeClosure); ok {
+						cfn, _ := mc.Fn.(*ssa.Function)
+						for bi, bnd := range mc.Bindings {
+							if cfn != nil && bi < len(cfn.FreeVars) && freeVarReadOnly(cfn.FreeVars[bi]) {
+								continue
+							}
+							if v, ok := st.regs[bnd]; ok && v.Ptr != nil && v.Ptr.Cell > 0 {
+								cells[v.Ptr.Cell] = true
+							}
 						}
 					}
+				}
+			}
+			for bi, bv := range a.Bindings {
+				if bi < len(a.Fn.FreeVars) && freeVarReadOnly(a.Fn.FreeVars[bi]) {
+					continue
+				}
+				if bv.Ptr != nil && bv.Ptr.Cell > 0 {
+					cells[bv.Ptr.Cell] = true
 				}
 			}
 		}
@@ -876,14 +949,54 @@ func (ex *Ex) havocLoop(fr *Frame, st *State, li *loopInfo) {
 	}
 	sort.Ints(cids)
 	for _, c := range cids {
-		if r, ok := st.mat[c]; ok {
-			_ = r
+		if _, ok := st.mat[c]; ok {
+			// the cell lives in the heap: forget the heap arrays of its type
+			t := st.cellType[c]
+			if stt, ok := t.Underlying().(*types.Struct); ok {
+				for i := 0; i < stt.NumFields(); i++ {
+					key := w.fieldHeapKey(t, stt, i)
+					if cur, ok := st.heap[key]; ok && !mods[key] {
+						st.heap[key] = ex.FreshVar(key, cur.S)
+					}
+				}
+			} else {
+				key := "P$" + w.SortOf(t).Mangle()
+				if cur, ok := st.heap[key]; ok && !mods[key] {
+					st.heap[key] = ex.FreshVar(key, cur.S)
+				}
+			}
 			continue
 		}
 		if cur, ok := st.cells[c]; ok {
 			st.cells[c] = ex.FreshVar("cell", cur.S)
 		}
 	}
+}
+
+// freeVarReadOnly: the closure only loads the captured variable, and never writes through a slice
+// loaded from it (nested closures capturing it again are treated as writers).
+func freeVarReadOnly(fv *ssa.FreeVar) bool {
+	refs := fv.Referrers()
+	if refs == nil {
+		return false
+	}
+	for _, r := range *refs {
+		ld, ok := r.(*ssa.UnOp)
+		if !ok || ld.Op != token.MUL {
+			return false
+		}
+		if _, isSlice := ld.Type().Underlying().(*types.Slice); isSlice {
+			if lr := ld.Referrers(); lr != nil {
+				for _, u := range *lr {
+					switch u.(type) {
+					case *ssa.IndexAddr, *ssa.Slice:
+						return false
+					}
+				}
+			}
+		}
+	}
+	return true
 }
 
 // modsOfAddr: which cell / heap key a store address refers to.
